@@ -387,6 +387,18 @@ class BaseWorklist(list):
             exclude_list = []
         else:
             exclude_list = list(exclude_wells)
+        integer_args = [
+            ("src_start", src_start),
+            ("src_end", src_end),
+            ("dst_start", dst_start),
+            ("dst_end", dst_end),
+            ("diti_reuse", diti_reuse),
+            ("multi_disp", multi_disp),
+        ]
+        integer_args += [("exclude_wells", w) for w in exclude_list]
+        for argname, value in integer_args:
+            if not isinstance(value, (int, numpy.integer)) or isinstance(value, bool) or value < 0:
+                raise ValueError(f"Invalid {argname}: {value}")
         if len(exclude_list) > 0:
             # check that all excluded wells fall in the range
             dst_range = set(range(dst_start, dst_end + 1))
